@@ -292,9 +292,15 @@ func c09ret(c *an.Ctx) {
 	}
 	result := el.Sig.Results().At(0)
 	// nested executions that yield a value
+	// new helpers (an/known.go) that hand a nested execution's value back to their caller count as
+	// nested executions themselves; a temporary of such a helper has done its duty once it is returned
+	valueHelper := map[*an.Fn]bool{}
 	isNested := func(call *ast.CallExpr) bool {
 		switch an.CalleeName(info, call) {
 		case execList, "(*jet.Runtime).executeTry", "(*jet.Runtime).executeInclude":
+			return true
+		}
+		if h := p.NewHelperCallee(el, call); h != nil && valueHelper[h] {
 			return true
 		}
 		return false
@@ -304,7 +310,7 @@ func c09ret(c *an.Ctx) {
 		c.Anchor("C09.ret", "case NodeReturn")
 	} else {
 		ok := false
-		ast.Inspect(cc, func(n ast.Node) bool {
+		armInspect(el, cc, func(n ast.Node) bool {
 			an.Assigns(n, func(lhs, rhs ast.Expr, _ token.Token) {
 				if id, isId := lhs.(*ast.Ident); isId && an.ObjOf(info, id) == types.Object(result) && rhs != nil {
 					if strings.Contains(an.Str(rhs), "evalPrimaryExpressionGroup(node.Value)") {
@@ -319,31 +325,88 @@ func c09ret(c *an.Ctx) {
 	// (2) every nested execution: its value reaches the result only through a temp guarded by IsValid; or is reported as discarded
 	tmpOf := map[types.Object]*ast.CallExpr{}
 	var discarded, direct []*ast.CallExpr
-	an.InspectOwn(el, func(n ast.Node) bool {
-		switch s := n.(type) {
-		case *ast.ExprStmt:
-			if call, ok := an.Unparen(s.X).(*ast.CallExpr); ok && isNested(call) {
-				discarded = append(discarded, call)
+	returned := map[types.Object]bool{} // temporaries of helpers that the helper returns
+	var helpers []*an.Fn
+	{
+		seenH := map[*an.Fn]bool{}
+		an.InspectOwn(el, func(n ast.Node) bool {
+			if call, ok := n.(*ast.CallExpr); ok {
+				if h := p.NewHelperCallee(el, call); h != nil && !seenH[h] {
+					seenH[h] = true
+					helpers = append(helpers, h)
+				}
 			}
-		default:
-			an.Assigns(n, func(lhs, rhs ast.Expr, _ token.Token) {
-				call, ok := an.Unparen(rhs).(*ast.CallExpr)
-				if rhs == nil || !ok || !isNested(call) {
-					return
+			return true
+		})
+	}
+	collect := func() {
+		tmpOf = map[types.Object]*ast.CallExpr{}
+		discarded, direct = nil, nil
+		an.InspectOwn(el, func(n ast.Node) bool {
+			switch s := n.(type) {
+			case *ast.ExprStmt:
+				if call, ok := an.Unparen(s.X).(*ast.CallExpr); ok && isNested(call) {
+					discarded = append(discarded, call)
 				}
-				id, isId := lhs.(*ast.Ident)
-				if !isId {
-					return
+			default:
+				an.Assigns(n, func(lhs, rhs ast.Expr, _ token.Token) {
+					call, ok := an.Unparen(rhs).(*ast.CallExpr)
+					if rhs == nil || !ok || !isNested(call) {
+						return
+					}
+					id, isId := lhs.(*ast.Ident)
+					if !isId {
+						return
+					}
+					if o := an.ObjOf(info, id); o == types.Object(result) {
+						direct = append(direct, call)
+					} else if o != nil {
+						tmpOf[o] = call
+					}
+				})
+			}
+			return true
+		})
+	}
+	for changed := true; changed; {
+		changed = false
+		collect()
+		for _, h := range helpers {
+			if valueHelper[h] {
+				continue
+			}
+			an.InspectBody(h, func(n ast.Node) bool {
+				ret, ok := n.(*ast.ReturnStmt)
+				if !ok {
+					return true
 				}
-				if o := an.ObjOf(info, id); o == types.Object(result) {
-					direct = append(direct, call)
-				} else if o != nil {
-					tmpOf[o] = call
+				results := ret.Results
+				if len(results) == 0 && h.Decl.Type.Results != nil {
+					for _, fl := range h.Decl.Type.Results.List {
+						for _, nm := range fl.Names {
+							results = append(results, nm)
+						}
+					}
 				}
+				for _, r := range results {
+					switch v := an.Unparen(r).(type) {
+					case *ast.Ident:
+						if o := an.ObjOf(info, v); o != nil && tmpOf[o] != nil {
+							returned[o] = true
+							if !valueHelper[h] {
+								valueHelper[h], changed = true, true
+							}
+						}
+					case *ast.CallExpr:
+						if isNested(v) && !valueHelper[h] {
+							valueHelper[h], changed = true, true
+						}
+					}
+				}
+				return true
 			})
 		}
-		return true
-	})
+	}
 	for _, call := range direct {
 		c.Bad("C09.ret", "(*Runtime).executeList/overwrite", call.Pos(), nil,
 			"the result of a nested execution (%s) is assigned to executeList's result unconditionally: a nested list that executes no return erases the value of an earlier return", an.Str(call.Fun))
@@ -390,6 +453,9 @@ func c09ret(c *an.Ctx) {
 	n := 0
 	for o, call := range tmpOf {
 		n++
+		if returned[o] {
+			continue // handed to the caller, where the helper call is a nested execution of its own
+		}
 		if !merged[o] {
 			found := false
 			for _, ms := range mergeStmts {
